@@ -60,7 +60,8 @@ def cases(tier):
         thin += [(n, 1), (1, n), (n, 1, 1), (1, n, 1), (1, 1, n)]
     for shape in thin:
         for method in c04.METHODS:
-            for vsk in ("aniso",) if tier == "quick" else ("unit", "aniso"):
+            # "scalar": one float for all axes (darsia.Grid(shape, 0.5)), on the multi-axis thin grids
+            for vsk in (("aniso",) if tier == "quick" else ("unit", "aniso")) + (("scalar",) if len(shape) > 1 else ()):
                 for form in ("full", "pressure"):
                     out.append({"kind": "thin", "shape": list(shape), "method": method, "vs": vsk, "form": form, "num_iters": [1, 6] if tier == "quick" else [1, 2, 6]})
     # --- discrete minimum
